@@ -37,7 +37,7 @@ def plan(tier, seed):
 
 def thresholds(tier):
   t = {"configs_completed": 100, "ops_replayed": 10000, "subword_ops": 500, "amo_ops": 200, "responses_checked": 10000,
-       "multiport_configs": 50, "rtl_configs": 30, "cl_configs": 30, "backpressure_configs": 30, "metamorphic_pairs": 8, "configs_with_ports_of_different_data_width": 20, "cl_memory_with_rtl_masters_configs": 30}
+       "multiport_configs": 50, "rtl_configs": 30, "cl_configs": 30, "backpressure_configs": 30, "metamorphic_pairs": 8, "configs_with_ports_of_different_data_width": 20, "cl_memory_with_rtl_masters_configs": 30, "image_api_calls": 1000}
   if tier == "thorough":
     t = {k: v * 20 for k, v in t.items()}
   return t
@@ -388,7 +388,35 @@ def run_config(sh, rng, case, probe=None):
                "ops_per_port": nops, "first_requests_port0": streams[0][:4], "events": len(ev), "cycles": cyc})
 
 
+def run_image_api(sh, rng):
+  """the image access used by test benches ( read_mem / write_mem ) over the WHOLE address range, the top of the memory included"""
+  from pymtl3.stdlib.mem.MagicMemoryFL import MagicMemoryFL
+  for _ in range(6):
+    N = rng.choice([16, 64, 256, 1000, 4096])
+    m = MagicMemoryFL(N)          # ( MagicMemoryCL / RTL forward read_mem / write_mem to their MagicMemoryFL )
+    m.elaborate()
+    model = bytearray(N)
+    for _ in range(20):
+      n = rng.choice([1, 2, 4, 8, N]) if rng.random() < 0.9 else rng.randrange(1, N + 1)
+      n = min(n, N)
+      a = rng.choice([0, N - n, N - n, rng.randrange(0, N - n + 1)])
+      sh.count("image_api_calls"); sh.count("evaluations")
+      try:
+        if rng.random() < 0.5:
+          data = bytearray(rng.getrandbits(8) for _ in range(n))
+          m.write_mem(a, data); model[a:a + n] = data
+        else:
+          got = bytes(m.read_mem(a, n))
+          if got != bytes(model[a:a + n]):
+            sh.violation("read_mem-returns-other-bytes-than-were-written", {"addr": a, "size": n, "mem_nbytes": N}); return
+      except Exception as e:
+        sh.violation("in-range-image-access-raised", {"addr": a, "size": n, "mem_nbytes": N, "touches_last_byte": a + n == N,
+                                                     "error": f"{type(e).__name__}: {str(e)[:100]}", "model": type(m).__name__}); return
+    sh.fp("image-api", N)
+
+
 def run_shard(sh):
+  run_image_api(sh, sh.rng("image-api"))
   for case in range(sh.params["configs"]):
     if sh.only is not None and str(case) != str(sh.only).strip('"'):
       continue
